@@ -678,6 +678,14 @@ def make_dict(eng, pairs, node):
     if not pairs:
         d = VDict(z3.K(Val, z3.BoolVal(False)), fresh_arr("dv", Val).__class__ and z3.Array(fresh_name("dv"), Val, Val), "val", "val")
         return eng.alloc(d)
+    if all(k is not None and as_int(eng, k) is not None and as_int(eng, v) is not None for k, v in pairs):
+        # int -> int table (e.g. escape tables): exact
+        present = z3.K(z3.IntSort(), z3.BoolVal(False))
+        value = z3.Array(fresh_name("dv"), z3.IntSort(), z3.IntSort())
+        for k, v in pairs:
+            present = z3.Store(present, as_int(eng, k), True)
+            value = z3.Store(value, as_int(eng, k), as_int(eng, v))
+        return eng.alloc(VDict(present, value, "int", "int"))
     present = z3.K(Val, z3.BoolVal(False))
     value = z3.Array(fresh_name("dv"), Val, Val)
     for k, v in pairs:
